@@ -62,6 +62,17 @@ func (ts *TransactionStore) Delete(pktID uint16) {
 	delete(ts.bypktID, pktID)
 }
 
+// DeleteIf removes a transaction from the store by the MessageID only if the
+// stored transaction is the given one. A transaction which was replaced by
+// a newer one with the same MessageID must not remove the newer one.
+func (ts *TransactionStore) DeleteIf(pktID uint16, transaction Transaction) {
+	ts.Lock()
+	defer ts.Unlock()
+	if ts.bypktID[pktID] == transaction {
+		delete(ts.bypktID, pktID)
+	}
+}
+
 // DeleteByType removes a transaction from the store by the PacketType.
 func (ts *TransactionStore) DeleteByType(pktType pkts.PacketType) {
 	ts.Lock()
